@@ -121,6 +121,30 @@ pub fn c01(ctx: &mut Ctx, t: &Term) {
       }
     }
   }
+  // ... and on a fresh object whose FIRST call was map(): a cache below the root is then filled by
+  // a text-less (final-source) stream, and the outside stream that follows must still carry the text
+  if has_cached(t) {
+    if let Ok(o2) = Obs::new(t) {
+      for columns in [true, false] {
+        let _ = o2.map(columns);
+        ctx.count("streams_after_map_first");
+        match o2.stream(columns, false) {
+          Err(e) => report_panic(ctx, t, &format!("stream(columns={columns}) after map()"), &e),
+          Ok(s) => {
+            ctx.transitions += s.events.len() as u64;
+            match s.text() {
+              None => ctx.violation("chunk_without_text", format!("after map, columns={columns}"), None, || case_json(t), t.size(), "after map() was called first, a chunk delivered to an outside caller carried no text".into()),
+              Some(joined) => {
+                if joined != text {
+                  ctx.violation("reassembly", format!("after map, columns={columns}"), None, || case_json(t), t.size(), format!("after map() was called first, chunks join to {joined:?}, source() is {text:?}"));
+                }
+              }
+            }
+          }
+        }
+      }
+    }
+  }
   if nontrivial {
     ctx.nontrivial += 1;
   }
